@@ -48,6 +48,7 @@ func main() {
 		Child: child,
 		Post: func(c *ev.Check, outs []*run.Outcome) {
 			c.Require("accepted_positive_controls", 4)
+			c.Require("highwin.unacceptable_far_slots_delivered", 50)
 			c.Require("via_socket", 10)
 			c.Require("queued.judged", 1)
 			c.Require("scale.rounds", 1)
@@ -80,6 +81,11 @@ func plan(tier string, seed int64) []run.Batch {
 	ns := 1
 	if tier == "thorough" {
 		ns = 4
+	}
+	for i, off := range []uint32{2130438 * 2016, 2130439 * 2016, 2130440 * 2016} {
+		if tier == "thorough" || i == int(seed%3) || i == 2 {
+			bs = append(bs, run.Batch{Kind: "highwin", Seed: seed*1000 + 700 + int64(i), N: 1, TimeoutS: 170, Params: map[string]string{"offset": fmt.Sprint(off)}})
+		}
 	}
 	for i := 0; i < ns; i++ {
 		bs = append(bs, run.Batch{Kind: "scale", Seed: seed*1000 + 500 + int64(i), N: 1, TimeoutS: 170})
@@ -383,6 +389,9 @@ func (w *world) datagrams(now, offset uint32, full bool) []dg {
 	hi := int64(now) + 432
 	if hi > int64(offset)+4031 {
 		hi = int64(offset) + 4031
+	}
+	if hi > 0xffffffff { // a window whose end lies beyond the last 32-bit timeslot
+		hi = 0xffffffff
 	}
 	freshSlot := func() (uint32, bool) {
 		if lo > hi {
@@ -723,6 +732,10 @@ func (w *world) queuedAcrossClockChange() {
 func child(b run.Batch, r *ev.Result) {
 	if b.Kind == "scale" {
 		scaleRound(b, r, b.Seed)
+		return
+	}
+	if b.Kind == "highwin" {
+		highWindowRound(b, r, b.Seed)
 		return
 	}
 	rounds := 1
